@@ -31,6 +31,9 @@ type opsRun struct {
 	ID    string              `json:"id"`
 	Mode  string              `json:"mode"`  // gated | free
 	Eager bool                `json:"eager"` // gated: operations are invoked as soon as the process is free (no invoke gate)
+	// WaitMS bounds how long the scheduler waits for a released call before it treats the process as blocked inside it
+	// (schedules listed for another store: a Begin that waits for the single connection simply stays blocked).
+	WaitMS int `json:"waitms,omitempty"`
 	Db0   map[string]world.CP `json:"db0"`
 	Prog  [][]opsOp           `json:"prog"`  // Prog[p-1]
 	Sched [][2]any            `json:"sched"` // gated: who moves next
@@ -238,6 +241,9 @@ func execOpsRun(base *world.World, r opsRun, storeKind string, seed int64, dir s
 	var g *gateSched
 	if r.Mode == "gated" {
 		g = newGateSched(pids)
+		if r.WaitMS > 0 {
+			g.wait = time.Duration(r.WaitMS) * time.Millisecond
+		}
 	}
 	var wg sync.WaitGroup
 	for _, p := range pids {
